@@ -373,7 +373,7 @@ def gen_json_case(rnd, spec):
             out.append(["histogram", {k: rnd.randint(0, 50) for k in rnd.sample(NONSTRING_KEYS + ["s"], rnd.randint(1, 4))}])
         return out
 
-    return {
+    case = {
         "kind": "json",
         "defaults": rnd.choice([None, None, mapping(0, 4), mapping(1, 4)]),
         "datefmt": rnd.choice([None, None, "", "%Y-%m-%dT%H:%M:%S", "%s", "%H h", 0, False]),
@@ -383,6 +383,12 @@ def gen_json_case(rnd, spec):
         ],
         "nest": rnd.random() < 0.15,
     }
+    if rnd.random() < 0.3:
+        # a burst: several records within one second, a few milliseconds apart
+        base = float(rnd.randint(0, 2**31))
+        for k, rec in enumerate(case["records"]):
+            rec["created"] = base + rnd.choice([0.001, 0.25, 0.5, 0.75]) * (k + 1) / (len(case["records"]) + 1)
+    return case
 
 
 def exec_json(case, result):
